@@ -4,7 +4,8 @@
 (* (in any order) and monomial dictionaries.                                *)
 EXTENDS Integers, Sequences, FiniteSets, TLC, Json, IOUtils, SequencesExt, Randomization, Term
 Thorough == "TIER" \in DOMAIN IOEnv /\ IOEnv.TIER = "thorough"
-Sub(S, n) == IF Thorough \/ Cardinality(S) <= n THEN S ELSE RandomSubset(n, S)
+\* (the thorough tier samples three times as many of each operand set)
+Sub(S, n) == LET m == IF Thorough THEN 3 * n ELSE n IN IF Cardinality(S) <= m THEN S ELSE RandomSubset(m, S)
 VarLists == {<<>>, <<"x">>, <<"y">>, <<"x", "y">>, <<"y", "x">>, <<"y", "z">>, <<"z", "x">>, <<"x", "y", "z">>, <<"z", "y", "x">>, <<"w">>}
 IntCoef == {TInt(1), TInt(-1), TInt(2), TInt(-3), TInt(5), TInt(0)}
 ExprCoef == {TInt(1), TInt(-2), TRat(1, 2), TSym("a"), TOp("mul", <<TInt(2), TSym("b")>>), TOp("sqrt", <<TInt(2)>>), TOp("add", <<TSym("a"), TInt(1)>>), TInt(0)}
